@@ -34,7 +34,7 @@ ASSUMPTIONS = [
 ]
 REQUIRED_REACH = {"monitor.baseline_metrics": 300, "contract.safe_divide": 1000, "monitor.reporting_metrics": 50,
                   "monitor.caltrack_metrics": 50, "monitor.hourly_stored_vs_predict": 3, "monitor.hourly_gate": 6,
-                  "monitor.daily_error": 4, "monitor.daily_gate": 4, "ratio.undefined_expected": 20}
+                  "monitor.daily_error": 4, "monitor.daily_gate": 4, "ratio.undefined_expected": 20, "monitor.hourly_gate_undefined_metric": 1}
 
 VIOL = []
 CTX = {"where": "direct"}
@@ -324,6 +324,8 @@ def _hourly_fit(spec, rng, keys, hist):
     df = synth_hourly(tz=tz, start="2018-01-01", days=365, seed=rng, ghi=spec["ghi"], noise=noise)
     if spec.get("pure_noise"):
         df["observed"] = np.abs(rng.normal(1, 1.5, len(df))) + 0.01
+    if spec.get("net_metered_zero_mean"):
+        df["observed"] = df["observed"] - float(df["observed"].mean())        # mean usage ~ 0: CVRMSE is undefined, PNRMSE is not
     gaps = rng.choice(len(df), size=int(0.02 * len(df)), replace=False)
     df.iloc[gaps, df.columns.get_loc("observed")] = np.nan     # -> interpolated hours
     bd = em.HourlyBaselineData(df, is_electricity_data=True)
@@ -353,6 +355,14 @@ def _hourly_fit(spec, rng, keys, hist):
     # ---- gate: thresholds straddling the measured values --------------------------------------
     cv, pn = ref.get("cvrmse_adj"), ref.get("pnrmse_adj")
     if cv is None or pn is None:
+        # an undefined ratio cannot meet its threshold; the model is disqualified exactly when it misses BOTH
+        I.reach("monitor.hourly_gate_undefined_metric")
+        thr_cv, thr_pn = m.settings.cvrmse_threshold, m.settings.pnrmse_threshold
+        expect = (cv is None or cv >= thr_cv) and (pn is None or pn >= thr_pn)
+        poor = [w for w in m.disqualification if "model_fit" in w.qualified_name]
+        hist["hourly_gate"]["undefined-metric expect_dq=%s" % expect] = 1
+        if bool(poor) != expect:
+            add("hourly-poor-fit-gate:undefined-metric", "poor-fit disqualification %s but cvrmse_adj=%r (thr %r) pnrmse_adj=%r (thr %r)" % (bool(poor), cv, thr_cv, pn, thr_pn))
         return
     for fcv, fpn in ((1.001, 1.001), (0.999, 0.999), (1.001, 0.999), (0.999, 1.001)):
         st = dict(seed=int(spec["mseed"]), cvrmse_threshold=cv * fcv, pnrmse_threshold=pn * fpn)
@@ -454,6 +464,9 @@ def gen_cases(tier, seed):
     for k in range(nh):
         cases.append(dict(kind="hourly", tz=zones[k % len(zones)], ghi=bool(k % 3 == 1), noise=[0.05, 0.3, 0.8][k % 3],
                           pure_noise=bool(k % 5 == 4), mseed=k + 1, batch=k, timeout=1200))
+    cases.append(dict(kind="hourly", tz="America/Chicago", ghi=False, noise=0.05, pure_noise=False, net_metered_zero_mean=True, mseed=77, batch=900, timeout=1200))
+    if not q:
+        cases.append(dict(kind="hourly", tz="Europe/London", ghi=True, noise=0.3, pure_noise=False, net_metered_zero_mean=True, mseed=78, batch=901, timeout=1200))
     nd = 10 if q else 90
     fams = ["current", "legacy", "billing"]
     for k in range(nd):
